@@ -50,6 +50,8 @@ func fileName(kind string) string {
 		return "thing" + utils.GeneratedFileSuffix
 	case "M":
 		return manifestName
+	case "L":
+		return "linked" // a symbolic link to a directory outside the target (see materialise)
 	case "U":
 		return "mgr.go" // a hand-written file whose name is a near miss of the generated suffix (any-character dots)
 	default:
@@ -58,7 +60,7 @@ func fileName(kind string) string {
 }
 
 // materialise writes the tree under dir; every file's content is its own relative path
-func materialise(dir string, t *JTree, rel string, listing map[string]string) error {
+func materialise(dir string, t *JTree, rel string, outsideDir string) error {
 	if err := os.MkdirAll(dir, 0o755); err != nil {
 		return err
 	}
@@ -70,12 +72,18 @@ func materialise(dir string, t *JTree, rel string, listing map[string]string) er
 		if k == "G" {
 			mode = 0o444 // generated files are written read-only
 		}
+		if k == "L" {
+			if err := os.Symlink(outsideDir, p); err != nil {
+				return err
+			}
+			continue
+		}
 		if err := os.WriteFile(p, []byte("content of "+r), mode); err != nil {
 			return err
 		}
 	}
 	for n, d := range t.dirs {
-		if err := materialise(filepath.Join(dir, n), d, filepath.Join(rel, n), listing); err != nil {
+		if err := materialise(filepath.Join(dir, n), d, filepath.Join(rel, n), outsideDir); err != nil {
 			return err
 		}
 	}
@@ -87,6 +95,9 @@ func expectedListing(t *JTree, rel string, out map[string]string) {
 	for _, k := range t.Files {
 		r := filepath.Join(rel, fileName(k))
 		out[r] = "content of " + r
+		if k == "L" {
+			out[r] = "symlink"
+		}
 	}
 	for n, d := range t.dirs {
 		out[filepath.Join(rel, n)] = "dir"
@@ -106,6 +117,8 @@ func actualListing(root string) (map[string]string, bool) {
 		r, _ := filepath.Rel(root, p)
 		if info.IsDir() {
 			out[r] = "dir"
+		} else if info.Mode()&os.ModeSymlink != 0 {
+			out[r] = "symlink"
 		} else {
 			b, _ := os.ReadFile(p)
 			out[r] = string(b)
@@ -155,12 +168,18 @@ func violation(key, what string, c any) {
 	out.WriteByte('\n')
 }
 
+// (outsideDir is where the symbolic links of the tree point: a directory beside the target holding the output of another
+// generator run)
 func checkRow(base string, id int, row *Row) {
 	root := filepath.Join(base, fmt.Sprintf("t%d", id), "target")
 	defer os.RemoveAll(filepath.Dir(root))
+	outsideDir := filepath.Join(base, fmt.Sprintf("t%d", id), "outside")
+	os.MkdirAll(outsideDir, 0o755)
+	os.WriteFile(filepath.Join(outsideDir, "other"+utils.GeneratedFileSuffix), []byte("another run"), 0o444)
+	os.WriteFile(filepath.Join(outsideDir, manifestName), []byte("{}"), 0o444)
 	before := map[string]string{}
 	if !row.Target.Gone {
-		if err := materialise(root, &row.Target, "", nil); err != nil {
+		if err := materialise(root, &row.Target, "", outsideDir); err != nil {
 			panic(err)
 		}
 		expectedListing(&row.Target, "", before)
@@ -188,6 +207,10 @@ func checkRow(base string, id int, row *Row) {
 		cs := map[string]any{"before": keys(before), "dot": row.Dot, "after": keys(got), "expected": keys(want), "pass": pass, "target_exists": exists}
 		if err != nil {
 			violation("C20/clean-error", fmt.Sprintf("CleanTargetDir failed: %v", err), cs)
+			return
+		}
+		if es, _ := os.ReadDir(outsideDir); len(es) != 2 {
+			violation("C20/reaches-outside-the-target", "cleaning changed a directory outside the target (reached through a symbolic link inside it)", cs)
 			return
 		}
 		if exists != !row.Expected.Gone {
